@@ -130,6 +130,7 @@ spec fn is_lower_bound(s: Seq<Ent>, k: Seq<u8>, p: int) -> bool {
 }
 
 //@ extract sst/src/lib.rs | struct KeyRef
+//@ prefix #[derive(Clone, Copy)]
 //@ end
 //@ extract sst/src/lib.rs | struct KeyValueRef
 //@ end
